@@ -17,10 +17,10 @@ TECHNIQUE = 'runtime monitoring: library-independent raw reader (sqlite3+slice+z
 
 
 def cases(ctx):
-    n = ctx.pick(260, 6000)
+    n = ctx.pick(260, 3000)
     out = [{'prop': PROPERTY, 'seed': ctx.seed * 1000003 + i, 'monitors': MONITORS, 'steps': (8, 40),
             'recovery_every': ctx.pick(0, 6)} for i in range(n)]
-    for i in range(ctx.pick(2, 60)):
+    for i in range(ctx.pick(2, 30)):
         out.append({'prop': PROPERTY, 'seed': ctx.seed * 1000003 + 500000 + i, 'monitors': MONITORS,
                     'steps': (120, 200), 'pack_targets': [50, 500], 'gen': {'big_p': 0.0, 'chunk_p': 0.01}})
     return out
